@@ -34,6 +34,7 @@ func errShape(c *core.Ctx, cs srcCase, errs []*errors.Error, atLex []int, lexTot
 	lt := lexm.NewLineTable(src)
 	var spans map[[2]int]bool
 	last := -1
+	sawEnd := false
 	for i, e := range errs {
 		if e == nil {
 			c.Report("error shape: nil error delivered", mkWhat("%q", src), cs)
@@ -49,7 +50,12 @@ func errShape(c *core.Ctx, cs srcCase, errs []*errors.Error, atLex []int, lexTot
 			if i < len(atLex) && atLex[i] < lexTotal {
 				c.Report("error shape: no position although the error is not at the end of the input ("+cl+")", mkWhat("%s (error %d, delivered after %d of %d tokens) in %q", e.Msg, i, atLex[i], lexTotal, src), cs)
 			}
+			sawEnd = true
 			continue
+		}
+		if sawEnd {
+			// an error without position is located at the end of the input: nothing located inside the source may follow it
+			c.Report("error order: an error located inside the source arrives after the end-of-input error ("+cl+")", mkWhat("%s in %q", errList(errs), src), cs)
 		}
 		if p.StartPos < 0 || p.EndPos > len(src) || p.StartPos > p.EndPos {
 			c.Report("error shape: position out of range ("+cl+")", mkWhat("[%d,%d) of %d bytes: %s in %q", p.StartPos, p.EndPos, len(src), e.Msg, src), cs)
